@@ -24,7 +24,7 @@ import (
 type ident struct {
 	name    string
 	cert    *smx509.Certificate
-	key     crypto.PrivateKey       // *sm2.PrivateKey | *rsa.PrivateKey | *ecdsa.PrivateKey
+	key     crypto.PrivateKey     // *sm2.PrivateKey | *rsa.PrivateKey | *ecdsa.PrivateKey
 	parents []*smx509.Certificate // non-nil when the certificate is issued by the intermediate CA
 	raw0    []byte                // copy of cert.Raw taken at creation (certificates handed to the library stay the caller's)
 	fp0     string                // fingerprint of the private key material at creation
